@@ -52,6 +52,22 @@ def js_round(x: float, ndigits: int = 0) -> float:
             return math.ceil(x * multiplier - 0.5) / multiplier
 
 
+def js_mod(a: Union[int, float], b: Union[int, float]) -> Union[int, float]:
+    """JavaScript % operator: the result takes the sign of the dividend."""
+    if isinstance(a, int) and isinstance(b, int) and b != 0:
+        r = abs(a) % abs(b)
+        if a < 0:
+            return -r if r else -0.0
+        return r
+    a = float(a)
+    b = float(b)
+    if math.isnan(a) or math.isnan(b) or math.isinf(a) or b == 0:
+        return float("nan")
+    if math.isinf(b):
+        return a
+    return math.fmod(a, b)
+
+
 @dataclass
 class ClosureCell:
     """A cell for closure variable - allows sharing between scopes."""
@@ -448,10 +464,7 @@ class VM:
             a = self.stack.pop()
             b_num = to_number(b)
             a_num = to_number(a)
-            if b_num == 0:
-                self.stack.append(float("nan"))
-            else:
-                self.stack.append(a_num % b_num)
+            self.stack.append(js_mod(a_num, b_num))
 
         elif op == OpCode.POW:
             b = self.stack.pop()
